@@ -122,22 +122,33 @@ def oracle(ctx, widen=1):
                 # the re-mounting reaches the same object through the other public routes that install an orientation:
                 # calc_ub from two (re-measured) orientation references, or set_ub with the rotated UB
                 def f():
+                    from diffcalc.hkl.geometry import Position
                     ub1 = mk(rot=rot)
                     B = np.asarray(ub1.crystal.B, float); U = np.asarray(ub1.U, float)
                     e = radians(eps)
                     Rz = np.array([[cos(e), -sin(e), 0], [sin(e), cos(e), 0], [0, 0, 1]])
                     hs = ((1.0, 0.0, 0.0), (0.0, 1.0, 1.0))
+                    # the orientation references are recorded at general sample positions (all four circles away from zero): the lab direction of
+                    # U.B.h seen through Z(pos); re-mounting by eps about phi = the same lab directions read at phi + eps
+                    def zmat(p):
+                        m_, _, _, et, ch, ph = [radians(x) for x in p]
+                        rx = lambda t: np.array([[1, 0, 0], [0, cos(t), -sin(t)], [0, sin(t), cos(t)]])
+                        ry = lambda t: np.array([[cos(t), 0, sin(t)], [0, 1, 0], [-sin(t), 0, cos(t)]])
+                        rz = lambda t: np.array([[cos(t), -sin(t), 0], [sin(t), cos(t), 0], [0, 0, 1]])
+                        return rx(m_) @ rz(-et) @ ry(ch) @ rz(-ph)
+                    poss = [tuple(rng.uniform(-50, 50) for _ in range(6)) for _ in hs] if route == "calc_ub" else []
                     with quiet():
                         if route == "calc_ub":
-                            for h, tg in zip(hs, ("o1", "o2")):
-                                ub1.add_orientation(h, tuple(float(x) for x in U @ B @ np.array(h)), None, tg)
+                            for h, tg, p in zip(hs, ("o1", "o2"), poss):
+                                ub1.add_orientation(h, tuple(float(x) for x in zmat(p) @ U @ B @ np.array(h)), Position(*p), tg)
                             ub1.calc_ub("o1", "o2")
                     sol(ub1, cons, hkl, wl)
                     str(ub1)
                     with quiet():
                         if route == "calc_ub":
-                            for i, (h, tg) in enumerate(zip(hs, ("o1", "o2")), 1):
-                                ub1.edit_orientation(i, h, tuple(float(x) for x in Rz @ U @ B @ np.array(h)), None, tg)
+                            for i, (h, tg, p) in enumerate(zip(hs, ("o1", "o2"), poss), 1):
+                                p2 = p[:5] + (p[5] + eps,)
+                                ub1.edit_orientation(i, h, tuple(float(x) for x in zmat(p) @ U @ B @ np.array(h)), Position(*p2), tg)
                             ub1.calc_ub("o1", "o2")
                         else:
                             ub1.set_ub(Rz @ np.asarray(ub1.UB, float))
